@@ -36,7 +36,7 @@ REWRITE_CLASSES = {
 }
 
 STD_REWRITES = [
-    ('V-ATTR', r'^[ \t]*#\[(?:inline(?:\([a-z]+\))?|derive\([^\]]*\)|derivative\([^\]]*\)|allow\([^\]]*\)|must_use|cfg\(feature = "timestamp"\))\][ \t]*\n', ''),
+    ('V-ATTR', r'^[ \t]*#\[(?:inline(?:\([a-z]+\))?|derive\([^\]]*\)|derivative\([^\]]*\)|allow\([^\]]*\)|must_use|default|cfg\(feature = "timestamp"\))\][ \t]*\n', ''),
     ('V-LOG', r'^[ \t]*(?:log|tracing)::(?:trace|debug|info|warn|error)!\((?:[^()]|\((?:[^()]|\([^()]*\))*\))*\);[ \t]*\n', ''),
     ('V-VIS', r'\bpub(?:\((?:crate|super)\))?[ \t]+', ''),
 ]
@@ -337,6 +337,18 @@ def _run_unit(unit_dir, repo, workdir, rlimit=None, extra_args=None, timeout=900
             viol.append(entry)
         else:
             undec.append(entry)
+    # proof hints whose anchor statement changed were skipped: then only failures of *named contract clauses* count as
+    # violations; failures of proof-internal steps (asserts of hints, lemma preconditions, overflow side conditions,
+    # untagged loop invariants) mean the proof could not be replayed -> undecided
+    lost = [h for fr in x.fragments for h in getattr(fr, 'lost_hints', [])]
+    res['lost_hint_anchors'] = lost
+    if lost and viol:
+        tagged = [v for v in viol if re.search(r'#obl:' + re.escape(v['obligation'] or '~'), text)]
+        if tagged:
+            viol = tagged
+        else:
+            undec = undec + [dict(v, message='proof step failed after a hint anchor was lost: ' + v['message']) for v in viol]
+            viol = []
     nobl = len(res['named_obligations'])
     res['obligations'] = res['verified_fns'] + vr.get('errors', 0)
     res['discharged'] = res['verified_fns']
